@@ -85,7 +85,7 @@ SPEC = {
     "level_text": "Coq theorems over all states, candidate transaction lists, evidence pools and admissible iteration orders, with transaction execution, signer resolution, the penalty and the period-end hook as arbitrary functions: (1) every Go map / sync.Map iteration inventoried by go/ast in core/state_processor.go, staking/*.go and core/state/*.go is either paired with a Gallina model of its loop body and a proof that the result is invariant under permutation of the iterated entries, or listed as off the execution path, and the regenerated inventory equals the classified set (a new map range breaks the bridge); rewardsToPool and distributeRewards as wholes are schedule-free; (2) evidence processing is independent of the signer cache; (3) processing a block is independent of iteration orders and cache contents (the chain head is no input since fix ec9154c); (4) every block the builder assembles from any candidates and any evidence pool is accepted with the builder's state and receipts (unconditional since fixes e1d256e and ec9154c; the two former finding classes are regression cases in the corpus). The model is tied to the code by running real chains: blocks built by the real miner worker (and by chain_makers) with the staking module, imported by BlockChain.InsertChain on a second node, re-executed on fresh state objects on a third and re-run in fresh processes; per-block observations are checked against the model inside Coq.",
     "level_note": "Trusted: Coq kernel + vm_compute; the hand model's fidelity rests on the differential check (reach reported in evidence); the EVM, BLS verification, takePenalty and the period-end handlers are oracles (functions) in the theorems; tries are modelled as finite maps (canonicity of the root is C13's statement); which inventoried sites are off the execution path is a reviewed classification, not a call-graph proof; no axioms.",
     "harness": "c06",
-    "hooks": ["miner/zz_verif_c06.go", "staking/zz_verif_c06.go"],
+    "hooks": ["miner/zz_verif_c06.go", "staking/zz_verif_c06.go", "core/state/zz_verif_c06.go"],
     "translators": [["ranges", "-out", "{gen}/C06MapRanges.v"]],
     "coq_targets": ["C06/Model.vo", "C06/ProofsA.vo", "C06/ProofsB.vo", "C06/ProofsC.vo", "gen/C06MapRanges.vo", "C06/Bridge.vo", "C06/Properties.vo"],
     "properties_v": "C06/Properties.v",
